@@ -4,6 +4,7 @@ CONSTANTS
   MaxDepth = 3
   MaxOps = 6
   MaxHandlers = 2
+  BadPools = {"p2"}
   PoolOpts <- AllPoolOpts
   AutoOpts <- AllAutoOpts
 INVARIANT ContextsRestored
